@@ -717,6 +717,14 @@ class Engine:
                 for i, v in enumerate(vals):
                     o.fields[(segs[-1], i)] = v
                 return o
+        if len(segs) == 1 and dest_ty not in ('?', ''):
+            # variant printed without its enum path (`Flag(move _2)`): the destination type says which enum
+            a = self.adts.lookup(dest_ty)
+            if a and a['kind'] == 'enum' and any(v['name'] == segs[0] for v in a['variants']):
+                o = Obj(dest_ty); o.discr = segs[0]
+                for i, v in enumerate(vals):
+                    o.fields[(segs[0], i)] = v
+                return o
         a = self.adts.lookup(head)
         if a is None and shape == 'unit' and len(segs) >= 2:
             # unknown enum's unit variant (foreign crate): keep the name; discriminant() on it will be inconclusive
@@ -733,6 +741,8 @@ class Engine:
         o = Obj(dest_ty if dest_ty not in ('?', '') else head)
         for i, v in enumerate(vals):
             o.fields[(None, i)] = v
+        if shape == 'named':
+            o.attrs['field_names'] = tuple(n for n, _ in fields)
         return o
 
     # ---------------- statements
